@@ -81,6 +81,37 @@ def detGap (θ : ℚ) (ds : List Det) (Y : D) : ℚ :=
     if rows.length < 2 || rows.any List.isEmpty then 1
     else detStateGap (thrOf θ e.2) (ds.map Det.kern) e.1 1).foldl min 1
 
+/-- margin of the amplitude-threshold comparisons of `_merge_sv` along one term -/
+def genTermGap {m : ℕ} (U : Matrix (Fin m) (Fin m) GQ) (c : Cfg) (nExt : ℕ) (thr : ℚ) (groups : List Fock) : ℚ :=
+  (groups.foldl (fun (st : (PM.C03.AmpsF × Bool) × ℚ) (s : Fock) =>
+    let g := if s.sum ≠ 0 && st.1.2 then
+        ((PM.C03.mergeAllF st.1.1 (groupEvolveFM U c nExt s)).map fun z => relGap (PM.C03.sqF z) thr).foldl min 1
+      else 1
+    (stepθM U c nExt thr st.1 s, min st.2 g)) ((([([], 1, 1)] : PM.C03.AmpsF), false), 1)).2
+
+/-- smallest non-zero squared modulus among the amplitudes the native `StateVector` holds while one member is computed
+(masked group outputs, kept merged components, components multiplied by the term's normalised coefficient): exqalibur
+drops components of modulus ≤ `min_complex_component = 1e-6`, which is not modelled -/
+def minNZ (l : List ℚ) : ℚ := l.foldl (fun acc x => if 0 < x then min acc x else acc) 1
+
+def genMinAmp2 {m : ℕ} (U : Matrix (Fin m) (Fin m) GQ) (c : Cfg) (θ : ℚ) (g : GMember) : ℚ :=
+  let n2 := SimSpec.svNorm2 g.terms
+  minNZ (g.terms.map fun t =>
+    let thr := θ / (10 * (PM.C03.termW t / n2) * g.w)
+    let a := minNZ (t.groups.map fun s => minNZ ((groupEvolveFM U c (svN g.terms) s).map fun y => GQ.normSq y.2.1 / y.2.2))
+    let comps := evolveTermθM U c (svN g.terms) thr t.groups
+    let b := minNZ (comps.map PM.C03.sqF)
+    let d := minNZ (comps.map fun z => PM.C03.sqF z * (PM.C03.termW t / n2))
+    min a (min b d))
+
+def genGap {m : ℕ} (U : Matrix (Fin m) (Fin m) GQ) (P : PM.C04.Prec) (c : Cfg) (members : List GMember) : ℚ :=
+  let θ := pThresholdG P c members
+  let g1 := ((keptG c members).map fun g => relGap g.w θ).foldl min 1
+  let g2 := ((keptGθ P c members).map fun g =>
+    (g.terms.map fun t =>
+      genTermGap U c (svN g.terms) (θ / (10 * (PM.C03.termW t / SimSpec.svNorm2 g.terms) * g.w)) t.groups).foldl min 1).foldl min 1
+  min g1 g2
+
 def heraldsOfJson (m : ℕ) (j : Json) : Except String (List (ℕ × ℕ)) := do
   let hs ← (← j.getArr?).toList.mapM fun h => do
     match (← natList h) with
@@ -272,6 +303,45 @@ def handle (j : Json) : Json :=
                              ("logical", ratToJson (logicalPerf sc fullD)),
                              ("retained", ratToJson (mass (retained sc fullD)))]),
         ("mass", ratToJson (mass fullD))]
+    | "c04gentrim" =>
+      -- superposed inputs at a non-zero precision: masked group amplitudes, `_merge_sv` amplitude threshold
+      let ⟨m, U⟩ ← matOfJson j
+      let members ← membersOfJson (← j.getObjVal? "members")
+      if members.any (fun p => p.2.any fun t => t.groups.any (·.length ≠ m)) then throw "bad group size"
+      if members.any (fun p => p.2.isEmpty) then throw "member without term"
+      if members.any (fun p => p.2.any fun t => (t.groups.map List.sum).sum ≠ svN p.2) then
+        throw "terms with different photon numbers"
+      let c ← cfgOfJson m (← j.getObjVal? "cfg")
+      let P : PM.C04.Prec := ⟨← ratOfJson (← j.getObjVal? "prec"), ← ratOfJson (← j.getObjVal? "minp")⟩
+      if P.prec < 0 || P.minp < 0 then throw "negative precision"
+      let gms := members.map fun (p : ℚ × List SimSpec.Term) => (⟨p.1, p.2⟩ : GMember)
+      let fullD := probsSVD U members
+      let sc := cond c
+      let θ := pThresholdG P c gms
+      let phys := AM.phys c (gms.map (toAM U c))
+      let Xθ := genResθ U P c gms
+      let X0 := genRes0 U c gms
+      let eD := genErrD U P c gms
+      let eR := mapKeys (reported sc) (restrict (logicOk sc) eD)
+      return Json.mkObj [
+        ("trimmed", outToJson (probsSvdGenθ U P c gms)),
+        ("zero", outToJson (finishSvd c phys X0)),
+        ("model", outToJson (probsSvdGen U c gms)),
+        ("spec", Json.mkObj [("results", distToJson (conditioned sc fullD)),
+                             ("phys", ratToJson (physPerf sc fullD)),
+                             ("logical", ratToJson (logicalPerf sc fullD)),
+                             ("retained", ratToJson (mass (retained sc fullD)))]),
+        ("theta", ratToJson θ),
+        ("droppedMembers", toJson ((keptG c gms).length - (keptGθ P c gms).length)),
+        ("droppedComps", toJson (((keptGθ P c gms).map fun (g : GMember) =>
+            (ampsθM U c 0 g.w g.terms).length - (ampsθM U c θ g.w g.terms).length).sum)),
+        ("errTot", ratToJson (mass eD)),
+        ("errRet", ratToJson (mass eR)),
+        ("errResults", distToJson eR),
+        ("retainedTrimmed", ratToJson (mass (restrict (logicOk sc) Xθ))),
+        ("retainedZero", ratToJson (mass (restrict (logicOk sc) X0))),
+        ("minAmp2", ratToJson (minNZ ((keptGθ P c gms).map (genMinAmp2 U c θ)))),
+        ("gap", ratToJson (genGap U P c gms))]
     | "session" =>
       -- a long-lived Simulator / Processor: every query is answered by the state machine (the walk over the sorted
       -- keys under the mask that is on the backend), and — next to it — by the stateless model for the selection in
